@@ -51,8 +51,11 @@ func (s *c13Stub) peek(a uint32) byte {
 	}
 	return rig.Mix(uint32(s.id)*7919+1, a)
 }
-func (s *c13Stub) Shutdown()          {}
-func (s *c13Stub) Size() uint32       { return 1 << 24 }
+func (s *c13Stub) Shutdown() {}
+
+// Size is a property of the device, not of the range it is attached over (a small device may be mirrored over a
+// larger range, a large one attached partially): routing must not depend on it.
+func (s *c13Stub) Size() uint32       { return []uint32{1 << 24, 0x20, 0x2000, 0}[s.id&3] }
 func (s *c13Stub) Clear()             {}
 func (s *c13Stub) Dump(uint32) []byte { return nil }
 
@@ -358,6 +361,16 @@ type c13RealCase struct {
 	Len   int    `json:"len"`
 }
 
+// c13Forward is a mirror device: its reads and writes are forwarded through the bus to another address.
+type c13Forward struct {
+	b        *bus.Bus
+	from, to uint32
+	c13Stub
+}
+
+func (f *c13Forward) Read(a uint32) byte     { return f.b.EaRead(a - f.from + f.to) }
+func (f *c13Forward) Write(a uint32, v byte) { f.b.EaWrite(a-f.from+f.to, v) }
+
 func c13RealCheck(c c13RealCase) error {
 	b, _ := bus.New()
 	romData, ramData := make([]byte, 0x100), make([]byte, 0x100)
@@ -369,6 +382,10 @@ func c13RealCheck(c c13RealCase) error {
 		return err
 	}
 	if err := b.Attach(memory.NewRAM(ramData, 0x8000), "ram", 0x8000, 0x80FF); err != nil {
+		return err
+	}
+	// a mirror of the RAM's first 64 bytes, implemented by forwarding through the bus
+	if err := b.Attach(&c13Forward{b: b, from: 0x8100, to: 0x8000}, "mirror", 0x8100, 0x813F); err != nil {
 		return err
 	}
 	end := c.Start + uint32(c.Len) - 1
@@ -386,11 +403,11 @@ func c13RealCheck(c c13RealCase) error {
 	for i := 0; i < c.Len; i++ {
 		a := c.Start + uint32(i)
 		want := byte(0xA5)
-		if a >= 0x7F00 && a <= 0x80FF {
+		if a >= 0x7F00 && a <= 0x813F {
 			want = b.EaRead(a)
 		}
 		if buf[i] != want {
-			return fmt.Errorf("EaDump($%06X,$%06X) position %d (address $%06X) holds %02x, a single read gives %02x (memory.ROM at $7F00, memory.RAM at $8000)", c.Start, end, i, a, buf[i], want)
+			return fmt.Errorf("EaDump($%06X,$%06X) position %d (address $%06X) holds %02x, a single read gives %02x (memory.ROM at $7F00, memory.RAM at $8000, forwarding mirror of $8000-$803F at $8100)", c.Start, end, i, a, buf[i], want)
 		}
 	}
 	for i := c.Len; i < len(buf); i++ {
@@ -430,8 +447,8 @@ func TestC13(t *testing.T) {
 			ev := r.Ev
 			if rig.Shard() == 0 {
 				n := 0
-				for start := uint32(0x7EE0); start <= 0x8110; start++ {
-					if !(start <= 0x7F10 || (start >= 0x7FD8 && start <= 0x8018) || start >= 0x80F0) {
+				for start := uint32(0x7EE0); start <= 0x8150; start++ {
+					if !(start <= 0x7F10 || (start >= 0x7FD8 && start <= 0x8018) || start >= 0x80D0) {
 						continue
 					}
 					for _, ln := range []int{1, 16, 17, 40} {
